@@ -30,7 +30,10 @@ type GenParams struct {
 	OnlyCommit  bool // every write tx ends in commit
 	NoBigValues bool
 	NoErrors    bool // do not generate argument/type error cases
-	Guards      Guards
+	// FreelistHeavy: the history starts by filling and then deleting a bucket of page-sized values, so that
+	// the free list is longer than one page for the rest of the run (multi-page freelist, overflow on page 2+)
+	FreelistHeavy bool
+	Guards        Guards
 }
 
 var pageSizes = []int{4096, 1024, 2048, 8192, 16384, 512}
@@ -656,6 +659,23 @@ func GenProgramFrom(ts *sim.Tapes, cfg Config, p GenParams, start *model.Bucket)
 	nsteps := 1 + g.t.Intn(p.MaxSteps)
 	if g.t.Chance(1, 3) { // many short runs
 		nsteps = 1 + g.t.Intn(4)
+	}
+	if p.FreelistHeavy {
+		n := cfg.PageSize/8 + cfg.PageSize/16 + g.t.Intn(cfg.PageSize/8)
+		fill := &Txn{Mode: "update", End: "commit", Ops: []Op{{Kind: "mkb", Key: "flh"}}}
+		for i := 0; i < n; i++ {
+			fill.Ops = append(fill.Ops, Op{Kind: "put", Path: []string{"flh"}, Key: fmt.Sprintf("f%05d", i), VLen: cfg.PageSize - 200, VTag: uint32(900000 + i)})
+		}
+		drop := &Txn{Mode: "update", End: "commit", Ops: []Op{{Kind: "rmb", Key: "flh"}}}
+		for _, t := range []*Txn{fill, drop} {
+			g.w = g.cur.Clone()
+			g.dirt = map[*model.Bucket]bool{}
+			for _, op := range t.Ops {
+				g.applyModel(op)
+			}
+			g.cur = g.w
+			prog.Steps = append(prog.Steps, Step{Kind: "tx", Tx: t})
+		}
 	}
 	openReaders := map[int]bool{}
 	nextReader := 1
